@@ -7,7 +7,8 @@
    object level, in C14's LexProofs / LitStringProofs / RealProofs / ObjectRtProofs). *)
 From LV Require Import Base.Bytes Base.Sx Model.Obj Model.Writer Model.Parser Model.Save Model.Xref Model.Loader
   Model.Utf Gen.Lex Proofs.LexProofs Proofs.ObjectRtProofs Proofs.SaveProofs Spec.SaveSpec Proofs.LoadProofs
-  Proofs.LoadProofsFile Proofs.LoadProofsXref Proofs.LoadProofsTable Proofs.LoadProofsAgain.
+  Proofs.LoadProofsFile Proofs.LoadProofsXref Proofs.LoadProofsTable Proofs.LoadProofsAgain Proofs.LoadProofsStream
+  Proofs.LoadProofsFull Spec.XrefSpec Gen.SaveFmt.
 
 Local Open Scope N_scope.
 
@@ -42,10 +43,10 @@ Theorem C01_startxref_exact :
     exists mid,
       so_bytes (save xt d) = body_of d ++ mid ++ startxref_bytes (Save.blen (body_of d)) /\
       match xt with
-      | XTable => mid = write_xref (xmap_of d) (d_max_id d + 1) ++ trailer_bytes (trailer_table d)
+      | XTable => mid = write_xref (xmap_of d) (d_max_id (raise_max_id d) + 1) ++ trailer_bytes (trailer_table (raise_max_id d))
       | XStream =>
-        let p := xstream_parts d (xmap_of d) (Save.blen (body_of d) mod u32_mod) in
-        mid = write_indirect_object (d_max_id d + 1) 0 (OStream (fst (fst p)) (snd (fst p)))
+        let p := xstream_parts (raise_max_id d) (xmap_of d) (Save.blen (body_of d) mod u32_mod) in
+        mid = write_indirect_object (d_max_id (raise_max_id d) + 1) 0 (OStream (fst (fst p)) (snd (fst p)))
       end.
 Proof. exact save_ok_shape. Qed.
 
@@ -172,109 +173,144 @@ Theorem C01_xref_table_roundtrip :
     POk {| x_type := XTTable; x_entries := conv_map x; x_size := 0 |} (bs "trailer" ++ more).
 Proof. exact xref_table_roundtrip. Qed.
 
-(* The whole-file statement (DESIGN: C01_roundtrip and C01_again) for both formats is C01_full below.
-   PROVED for the cross-reference TABLE format: the first cycle (C01_roundtrip_table and its reading
-   C01_roundtrip_table_same) and the second cycle (C01_again_table).  NOT proved: the cross-reference
-   STREAM format -- missing is the stream content written by xstream_content read back through
-   Xref.decode_xref_plain and the composition with it (every other piece, (1)-(11), is format
-   independent). *)
-Definition bookkeeping : list bytes :=
-  [K_Type; Save.K_Size; Save.K_W; Save.K_Index; K_Length; Save.K_Prev; K_Filter].
-Definition is_xref_stream (o : obj) : bool :=
-  match o with OStream d _ => has_type d K_XRef | _ => false end.
-Definition user_objects (m : objmap) : objmap := filter (fun io => negb (is_xref_stream (snd io))) m.
-Definition same_trailer (t t' : dict) : Prop :=
-  forall k, ~ In k bookkeeping -> dict_get t' k = dict_get (norm_dict t) k.
-Definition same_doc (d d' : doc) : Prop :=
-  d_version d' = d_version d /\ user_objects (d_objects d') = norm_objects (d_objects d) /\
-  same_trailer (d_trailer d) (d_trailer d').
-Definition xtype_of (xt : xref_type) : xtype := match xt with XTable => XTTable | XStream => XTStream end.
-Definition with_objects (d : doc) (m : objmap) : doc :=
-  {| d_version := d_version d; d_binary_mark := d_binary_mark d; d_trailer := d_trailer d;
-     d_objects := m; d_max_id := d_max_id d |}.
+(* ------------------------------------------------------------------------------------------
+   Part C.  The whole file, both formats, the property's own domain, two cycles.
+   [savable] (Spec/SaveSpec.v) does NOT ask max_id to bound the object numbers: save raises it (repair in /repo);
+   [written d] is d with max_id raised; [reloaded xt d] the document that comes back; [same_doc] the property's
+   comparison (version, identifiers and objects up to normal form apart from cross-reference stream objects,
+   trailer apart from bookkeeping keys).
+   ------------------------------------------------------------------------------------------ *)
 
-Definition C01_full : Prop :=
-  forall xt d, savable d -> known_deep d = false -> small_file xt d ->
-    exists d1 d2,
-      load (so_bytes (save xt d)) = LOk d1 (xtype_of xt) /\ same_doc d d1 /\
-      load (so_bytes (save xt d1)) = LOk d2 (xtype_of xt) /\ same_doc d1 d2 /\ same_doc d d2.
+(* (12) lopdf's cross-reference stream writer IS the encoder of ISO 32000-1 7.5.8 (Spec/XrefSpec.v, written from
+   the standard) at W = [1 4 2] with the Index it writes ... *)
+Theorem C01_xref_stream_is_spec :
+  forall secs, Forall (fun s => entries_fit (fst s) (snd s)) secs ->
+    xstream_content secs = enc_sections XS_W1 XS_W2 XS_W3 (spec_secs secs) /\
+    xstream_index secs = index_array (spec_secs secs).
+Proof. exact xstream_content_is_spec. Qed.
 
-(* (12) MAIN THEOREM, table format.  For every document of the domain that is outside the known-finding
-   class and whose file stays below 4 GiB: loading the bytes save wrote succeeds, remembers the format,
-   and returns exactly [reloaded_table d]: same version and binary mark, the same identifiers with every
-   object replaced by its normal form (an integral real becomes the integer, nothing else changes),
-   the trailer with Size set, normalised, and max_id = the largest object number. *)
+(* ... so that the loader's decoder (C02's theorem for all widths and Index partitions) reads the stream of a sorted
+   map of in-range Normal entries back to exactly that map, removing Length, W and Index from the dictionary *)
+Theorem C01_xref_stream_roundtrip :
+  forall (x : Save.xmap) size (d : dict) (sz : Z),
+    size < two32 -> incr 1 x -> Forall (fun ke => fst ke <= size) x -> Forall normal_ok x ->
+    dict_get d Xref.K_Size = Some (OInt sz) -> dict_get d Xref.K_W = Some xs_W ->
+    dict_get d Xref.K_Index = Some (xstream_index (stream_sections x size)) ->
+    decode_xref_plain d (xstream_content (stream_sections x size)) =
+    XOk ({| x_type := XTStream; x_entries := conv_map x; x_size := i64_as_u32 sz |},
+         dict_swap_remove (dict_swap_remove (dict_swap_remove d K_Length) Xref.K_W) Xref.K_Index).
+Proof. exact xref_stream_roundtrip. Qed.
+
+(* (13) MAIN THEOREMS, one cycle.  For every document of the domain outside the known-finding class whose file
+   stays below 4 GiB, loading the bytes save wrote succeeds, remembers the format and returns exactly
+   [reloaded_table (raise_max_id d)] / [reloaded_stream (raise_max_id d)]: same version and binary mark, the same
+   identifiers with every object in normal form; table: trailer with Size, max_id = the largest object number;
+   stream: additionally the cross-reference stream object itself under the number max_id + 1, the trailer = its
+   dictionary without Length / W / Index, max_id + 1. *)
 Theorem C01_roundtrip_table :
   forall d, savable d -> known_deep d = false -> small_file XTable d ->
-    load (save_table d) = LOk (reloaded_table d) XTTable.
-Proof. exact load_save_table. Qed.
-
-(* ... read as the clauses of the property text *)
-Theorem C01_roundtrip_table_same :
-  forall d, savable d -> known_deep d = false -> small_file XTable d ->
-    exists d1, load (so_bytes (save XTable d)) = LOk d1 (xtype_of XTable) /\
-               d_version d1 = d_version d /\
-               map fst (d_objects d1) = map fst (d_objects d) /\
-               d_objects d1 = norm_objects (d_objects d) /\
-               same_trailer (d_trailer d) (d_trailer d1).
+    load (save_table d) = LOk (reloaded_table (raise_max_id d)) XTTable.
 Proof.
-  intros d S K Hs. exists (reloaded_table d). split; [apply load_save_table; assumption|].
-  split; [reflexivity|]. split.
-  - cbn [reloaded_table d_objects]. unfold norm_objects. rewrite map_map. reflexivity.
-  - split; [reflexivity|]. intros k Hk. cbn [reloaded_table d_trailer].
-    rewrite !dict_get_norm. unfold trailer_table.
-    destruct (bytes_eqb k Save.K_Size) eqn:E.
-    + apply bytes_eqb_eq in E. subst k. exfalso. apply Hk. right. left. reflexivity.
-    + apply bytes_eqb_neq in E. rewrite FilterProofsDict.dict_get_set_other by exact E. reflexivity.
+  intros d S K Hs. pose proof (load_save_gen XTable d (savable_written d S)) as H.
+  rewrite known_deep_written in H by exact S. specialize (H K Hs).
+  cbn [reloaded xtype_of] in H. rewrite written_savable in H by exact S. exact H.
 Qed.
 
-(* (13) C01_again, table format.  The reloaded document is in the domain again and outside the known
-   class (normalisation keeps well-formedness, types, nesting), so a further cycle succeeds, and it
-   returns the same version, identifiers, objects and max_id: from the first reload on the cycle is
-   the identity on the objects.  (Only the size bound of the second file stays a hypothesis: normal
-   forms can differ in length from the original spelling.) *)
-Theorem C01_again_table :
-  forall d, savable d -> known_deep d = false -> small_file XTable d -> small_file XTable (reloaded_table d) ->
-    load (save_table d) = LOk (reloaded_table d) XTTable /\
-    load (save_table (reloaded_table d)) = LOk (reloaded_table (reloaded_table d)) XTTable /\
-    d_version (reloaded_table (reloaded_table d)) = d_version d /\
-    d_objects (reloaded_table (reloaded_table d)) = d_objects (reloaded_table d) /\
-    d_max_id (reloaded_table (reloaded_table d)) = d_max_id (reloaded_table d).
-Proof. exact load_save_table_again. Qed.
-
-Theorem C01_reloaded_in_domain :
-  forall d, savable d -> known_deep d = false ->
-    savable (reloaded_table d) /\ known_deep (reloaded_table d) = false.
-Proof. intros d S K. split; [apply savable_reloaded; exact S | apply known_deep_reloaded; exact K]. Qed.
-
-(* non-vacuity of the main theorem: the example document meets every hypothesis *)
-Theorem C01_example_domain :
-  savable ex_doc /\ known_deep ex_doc = false /\ small_file XTable ex_doc /\
-  load (save_table ex_doc) = LOk (reloaded_table ex_doc) XTTable.
+Theorem C01_roundtrip_stream :
+  forall d, savable d -> known_deep d = false -> small_file XStream d ->
+    load (save_stream d) = LOk (reloaded_stream (raise_max_id d)) XTStream.
 Proof.
-  assert (S : savable ex_doc).
-  { constructor.
-    - vm_compute. reflexivity.
-    - reflexivity.
-    - reflexivity.
-    - vm_compute. discriminate.
-    - cbn [ex_doc d_objects obj_numbers map fst increasing]. repeat split; reflexivity.
-    - cbn [ex_doc d_objects d_max_id].
-      apply Forall_cons; [|apply Forall_cons; [|apply Forall_nil]]; cbn [fst snd].
-      + split; [vm_compute; discriminate|]. split; [vm_compute; discriminate|]. split; [|reflexivity].
-        cbn [top_wf]. constructor; [repeat constructor; cbn; intuition discriminate|].
-        repeat constructor.
-      + split; [vm_compute; discriminate|]. split; [vm_compute; discriminate|]. split; [|reflexivity].
-        cbn [top_wf]. split; [|reflexivity].
-        constructor; [repeat constructor; cbn; intuition discriminate|].
-        repeat constructor.
-    - cbn [ex_doc d_trailer]. constructor; [repeat constructor; cbn; intuition discriminate|].
-      constructor; [|constructor]. cbn [snd]. constructor; vm_compute; discriminate.
-    - reflexivity.
-    - reflexivity. }
-  assert (K : known_deep ex_doc = false) by (vm_compute; reflexivity).
-  assert (Hs : small_file XTable ex_doc) by (vm_compute; reflexivity).
-  split; [exact S|]. split; [exact K|]. split; [exact Hs|]. apply load_save_table; assumption.
+  intros d S K Hs. pose proof (load_save_gen XStream d (savable_written d S)) as H.
+  rewrite known_deep_written in H by exact S. specialize (H K Hs).
+  cbn [reloaded xtype_of] in H. rewrite written_savable in H by exact S. exact H.
+Qed.
+
+(* (14) C01_full: THE PROPERTY.  Both formats; the first cycle returns a document that is the same in the
+   property's sense; a further cycle (on whatever came back, in the format the loader remembered) succeeds and
+   returns the same document again -- the same as the first reload and the same as the original.
+   Hypotheses: the domain, outside the one known class, files below 4 GiB (small_file for each of the two files:
+   the second one holds normal forms and a different Size, whose lengths may differ), and for the stream format one
+   spare object number for the second cycle (every stream-format save uses a fresh number for its stream). *)
+Theorem C01_full :
+  forall xt d, savable d -> known_deep d = false -> small_file xt d -> cycles_fit xt d ->
+    load (so_bytes (save xt d)) = LOk (reloaded xt d) (xtype_of xt) /\
+    same_doc d (reloaded xt d) /\
+    (small_file xt (reloaded xt d) ->
+     load (so_bytes (save xt (reloaded xt d))) = LOk (reloaded xt (reloaded xt d)) (xtype_of xt) /\
+     same_doc (reloaded xt d) (reloaded xt (reloaded xt d)) /\
+     same_doc d (reloaded xt (reloaded xt d))).
+Proof. exact load_save_full. Qed.
+
+(* what same_doc says, clause by clause, for a document of the domain (no cross-reference stream object in it) *)
+Theorem C01_same_doc_reading :
+  forall d d', savable d -> same_doc d d' ->
+    d_version d' = d_version d /\
+    user_objects (d_objects d') = norm_objects (d_objects d) /\
+    map fst (user_objects (d_objects d')) = map fst (d_objects d) /\
+    (forall k, ~ In k bookkeeping -> dict_get (d_trailer d') k = option_map norm_obj (dict_get (d_trailer d) k)).
+Proof.
+  intros d d' S [H1 [H2 H3]].
+  assert (U : user_objects (d_objects d) = d_objects d).
+  { apply user_objects_norm_kept. pose proof (sd_objects d S) as Ho. eapply Forall_impl; [|exact Ho]. intros io [_ [_ H]]. exact H. }
+  rewrite U in H2. split; [exact H1|]. split; [exact H2|]. split.
+  - rewrite H2. unfold norm_objects. rewrite map_map. reflexivity.
+  - intros k Hk. rewrite (H3 k Hk). apply dict_get_norm.
+Qed.
+
+(* the reloaded document of either format is again in the domain of the pipeline and outside the known class *)
+Theorem C01_reloaded_in_domain :
+  forall xt d, savable d -> known_deep d = false -> small_file xt d -> cycles_fit xt d ->
+    savable_core (written (reloaded xt d)) /\ known_deep (written (reloaded xt d)) = false.
+Proof.
+  intros xt d S K Hs Hfit. pose proof (savable_written d S) as S0.
+  assert (K0 : known_deep (written d) = false) by (rewrite known_deep_written; assumption).
+  destruct xt; cbn [reloaded].
+  - rewrite written_reloaded_table by exact S0. split; [apply savable_reloaded; exact S0 | apply known_deep_reloaded; exact K0].
+  - rewrite written_reloaded_stream by exact S0. apply savable_restream; try assumption.
+    all: try (unfold small_file_core; rewrite <- save_written; exact Hs).
+    all: try (rewrite written_savable by exact S; exact Hfit).
+Qed.
+
+(* non-vacuity: the example document meets every hypothesis, in both formats; ex_low is the same document with a
+   stale max_id = 1 below its object number 3 (reachable through the public field `objects`) -- in the domain
+   since the repair *)
+Definition ex_low : doc :=
+  {| d_version := d_version ex_doc; d_binary_mark := d_binary_mark ex_doc; d_trailer := d_trailer ex_doc;
+     d_objects := d_objects ex_doc; d_max_id := 1 |}.
+
+Lemma ex_savable m : m <= 4 ->
+  savable {| d_version := d_version ex_doc; d_binary_mark := d_binary_mark ex_doc; d_trailer := d_trailer ex_doc;
+             d_objects := d_objects ex_doc; d_max_id := m |}.
+Proof.
+  intro Hm. constructor; cbn [ex_doc d_version d_binary_mark d_trailer d_objects d_max_id].
+  - change (last_number [((1, 0), ODict [(K_Type, OName (bs "Catalog"))]); ((3, 2), OStream [(K_Length, OInt 3)] (bs "abc"))]) with 3.
+    unfold u32_mod. lia.
+  - reflexivity.
+  - reflexivity.
+  - vm_compute. discriminate.
+  - cbn [obj_numbers map fst increasing]. repeat split; reflexivity.
+  - apply Forall_cons; [|apply Forall_cons; [|apply Forall_nil]]; cbn [fst snd].
+    + split; [vm_compute; discriminate|]. split; [|reflexivity].
+      cbn [top_wf]. constructor; [repeat constructor; cbn; intuition discriminate|]. repeat constructor.
+    + split; [vm_compute; discriminate|]. split; [|reflexivity].
+      cbn [top_wf]. split; [|reflexivity].
+      constructor; [repeat constructor; cbn; intuition discriminate|]. repeat constructor.
+  - constructor; [repeat constructor; cbn; intuition discriminate|].
+    constructor; [|constructor]. cbn [snd]. constructor; vm_compute; discriminate.
+  - reflexivity.
+  - reflexivity.
+Qed.
+
+Theorem C01_example_domain :
+  (savable ex_doc /\ known_deep ex_doc = false /\ small_file XTable ex_doc /\ small_file XStream ex_doc /\
+   cycles_fit XStream ex_doc /\ small_file XTable (reloaded XTable ex_doc) /\ small_file XStream (reloaded XStream ex_doc)) /\
+  (savable ex_low /\ known_deep ex_low = false /\ small_file XTable ex_low /\ small_file XStream ex_low /\
+   cycles_fit XStream ex_low /\ d_max_id (so_doc (save XTable ex_low)) = 3 /\
+   map fst (d_objects (reloaded XStream ex_low)) = [(1, 0); (3, 2); (4, 0)]).
+Proof.
+  split.
+  - split; [apply (ex_savable 4); lia|]. repeat split; vm_compute; reflexivity.
+  - split; [apply (ex_savable 1); lia|]. repeat split; vm_compute; reflexivity.
 Qed.
 
 (* the known-finding class is inhabited and the domain is not empty *)
@@ -301,9 +337,12 @@ Print Assumptions C01_binary_mark_roundtrip.
 Print Assumptions C01_startxref_roundtrip.
 Print Assumptions C01_trailer_roundtrip.
 Print Assumptions C01_xref_table_roundtrip.
+Print Assumptions C01_xref_stream_is_spec.
+Print Assumptions C01_xref_stream_roundtrip.
 Print Assumptions C01_roundtrip_table.
-Print Assumptions C01_roundtrip_table_same.
-Print Assumptions C01_again_table.
+Print Assumptions C01_roundtrip_stream.
+Print Assumptions C01_full.
+Print Assumptions C01_same_doc_reading.
 Print Assumptions C01_reloaded_in_domain.
 Print Assumptions C01_example_domain.
 Print Assumptions C01_known_class_witness.
